@@ -57,6 +57,20 @@ def contract(kind, n, noise):
     hom = np.hstack([mobile, np.ones((len(mobile), 1))]) @ M.T
     if not np.allclose(hom[:, :3], applied, atol=2e-3):
         return "apply() != 4x4 matrix form"
+    # the matrix form is a pure view of the transformation: asking twice gives the same, editing the
+    # returned array or the transformation afterwards is reflected correctly
+    m_first = np.array(tr.as_matrix(), dtype=float)
+    got = tr.as_matrix()
+    got[..., :3, 3] *= 0.1
+    if not np.allclose(np.asarray(tr.as_matrix(), dtype=float), m_first, atol=1e-6):
+        return "as_matrix() changed after the returned array was edited"
+    moved = struc.AffineTransformation(tr.center_translation.copy(), tr.rotation.copy(), tr.target_translation.copy())
+    moved.as_matrix()
+    moved.target_translation = moved.target_translation + 3.0
+    M2 = np.asarray(moved.as_matrix(), dtype=float).reshape(-1, 4, 4)[0]
+    hom2 = np.hstack([mobile, np.ones((len(mobile), 1))]) @ M2.T
+    if not np.allclose(hom2[:, :3], moved.apply(mobile.astype(np.float32)), atol=2e-3):
+        return "as_matrix() is stale after target_translation was changed: apply() != 4x4 matrix form"
     r0 = rmsd(fixed, np.asarray(fitted, dtype=float))
     if noise == 0 and r0 > 2e-3:
         return f"exact rigid copy ({kind}) fitted with RMSD {r0:.5f}"
